@@ -28,7 +28,9 @@ COMPONENTS = c01.COMPONENTS
 ASSUMPTIONS = c01.ASSUMPTIONS + ["the fault point is the generated function's own rec() call; failures inside dds or the store are C06/C12 matters"]
 PROBES = ["fault_fired", "fault_fired_after_children_completed", "fault_in_nested_kept_function", "base_exception_class",
           "twin_ops_compared", "fault_not_reached_cached"]
-EXC = ["ValueError", "CustomError", "KeyboardInterrupt", "SystemExit", "GeneratorExit", "MemoryError"]
+EXC = ["ValueError", "CustomError", "KeyboardInterrupt", "SystemExit", "GeneratorExit", "MemoryError", "KeyError", "IndexError",
+       "TypeError", "AttributeError", "StopIteration", "FileExistsError", "FileNotFoundError", "AssertionError", "RuntimeError",
+       "RecursionError", "OSError", "LookupError", "NotImplementedError", "ImportError", "DDSException"]
 
 PROFILE = {
     "feat": gen.swarm_feat,
